@@ -112,12 +112,13 @@ type Exec struct {
 	loopStack []*loopCtx
 	retStates []*State
 	curLoopDepth int
-	inContract int
 	baseNames map[string]Val
 	baseFuncs map[string]Val
 	usedContracts map[string]bool
 	lastPerm [2]string
 	curLoopWritable []string
+	inlineMode bool
+	inlineResult *Val
 }
 
 type loopCtx struct {
@@ -152,6 +153,20 @@ func (x *Exec) oblige(kind string, ordinal int, pos token.Pos, st *State, goal s
 		o.Status, o.Backend = "unsat", "syntactic"
 	}
 	x.obligs = append(x.obligs, o)
+}
+
+// smoke records a reachability check: the path condition and all assumptions so far must not be contradictory
+// (expected answer: not unsat). A contradictory invariant or precondition would make every later obligation vacuous.
+func (x *Exec) smoke(label string, st *State, pos token.Pos) {
+	if x.inlineMode || st == nil || st.pc == "false" {
+		return
+	}
+	where := ""
+	if pos.IsValid() {
+		p := x.g.fset.Position(pos)
+		where = fmt.Sprintf("%s:%d", shortPath(p.Filename), p.Line)
+	}
+	x.obligs = append(x.obligs, &Obligation{Name: x.fi.Key + "/vacuity." + label, Kind: "vacuity", Where: where, PC: st.pc, Goal: "false", NAssume: len(x.c.assumes), Ctx: x.c, Fn: x.fi.Key, Vacuity: true, Human: "reachable: assumptions at this point are satisfiable"})
 }
 
 func shortPath(p string) string {
@@ -255,7 +270,7 @@ func (x *Exec) mergeVal(cond string, va, vb Val, hint string) Val {
 }
 
 func (x *Exec) namePC(t string) string {
-	if len(t) < 30 {
+	if len(t) < 30 || x.c.inContract > 0 {
 		return t
 	}
 	n := x.c.freshConst("pc", "Bool")
@@ -324,8 +339,8 @@ func (x *Exec) sliceRead(st *State, s Val, idx string) Val {
 
 // assumeWF adds the well-formedness facts of a value read from the heap / havoc (slices: bounds and allocation)
 func (x *Exec) assumeWF(st *State, v Val) {
-	if v.Ty == nil {
-		return
+	if v.Ty == nil || x.c.inContract > 0 {
+		return // inside contract expressions terms may mention bound variables
 	}
 	switch u := v.Ty.Underlying().(type) {
 	case *types.Slice:
